@@ -118,7 +118,7 @@ def run_family(fam, prop_id, tier, known, stats):
         if i in model_out:
             raw = model_out[i]
             mo = fam.normalize_model(raw)
-            if 'UNMODELLED' in raw:
+            if fam.discard(raw, c):
                 discarded += 1
             elif mo != obs:
                 disagreements.append(dict(family=fam.name, case=fam.describe(c), model=mo[:60000], impl=obs[:60000],
